@@ -273,12 +273,20 @@ def main() -> int:
         run.coverage["functions_with_recorded_calls"] = len(decided_funcs)
         info = {r["id"]: r.pop("_info") for r in recs}
         path = sc / "c02.json"
-        path.write_text(json.dumps(recs))
+        # self-test records binding the trace machinery: F = m*a with (2, 3, 6) must HOLD, with (2, 3, 7) must FAIL
+        prog_a, prog_b = [["sym", 3, 0]], [["sym", 1, 0], ["sym", 2, 0], ["mul", 2, 0]]
+        selftest = [{"id": f"__selftest_{n}__", "a": prog_a, "b": prog_b, "pt1": [2, 3, v], "pt2": [2, 3, v], "alt": False,
+                     "pta1": [2, 3, v], "pta2": [2, 3, v]} for n, v in (("holds", 6), ("fails", 7))]
+        path.write_text(json.dumps(recs + selftest))
         cfg = write_cfg(sc / "le.cfg", init="TraceInit", next_="TraceNext", invariants=["Report"],
                         constants=MODEL_CFG)
         res = run_tlc("LawEvalTrace", cfg, sc, workers=1, env={"TRACE_FILE": str(path)}, allow_violation=False)
         run.add_tlc(res, f"trace validation: {len(recs)} recorded calls decided by evaluating both sides of the law in two prime fields")
         verdicts = {v[1]: v[0] for v in res.printed}
+        st = (verdicts.pop("__selftest_holds__", None), verdicts.pop("__selftest_fails__", None))
+        if st != ("HOLDS", "FAILS"):
+            raise RuntimeError(f"self-test of the trace specification failed: {st}")
+        run.coverage["selftest"] = "F = m*a: (2,3,6) HOLDS, (2,3,7) FAILS (binding of LawEvalTrace)"
         if set(verdicts) != set(info):
             raise RuntimeError("verdicts do not cover the recorded calls")
         counts = {}
